@@ -74,7 +74,7 @@ func NewHierarchicalConjunctiveThresholdAccessStructure(levels ...*ThresholdLeve
 			return nil, ErrValue.WithMessage("thresholds must be less than or equal to the number of parties")
 		}
 
-		ls = append(ls, &ThresholdLevel{l.threshold, parties.List()})
+		ls = append(ls, &ThresholdLevel{l.threshold, slices.Sorted(slices.Values(parties.List()))})
 	}
 
 	h := &HierarchicalConjunctiveThreshold{levels: ls}
